@@ -26,6 +26,15 @@ Streams
                               on four routes to the same definition: get_names (TreeNameDefinition),
                               infer() on its name, the names parent() hands out along every chain and the
                               names get_context returns (ValueNames)
+  oracle-fullname-ref / member-fullname / qualname/members   definitions reached through REFERENCES: generated
+             class hierarchies (gen/c18_members.py: nested classes, single / multiple inheritance, overriding,
+             diamonds; receivers = instances, call results and the classes themselves) with `r = receiver.attr`
+             lines; Script.infer and Script.goto on the attribute hand out Names of def/class statements somewhere
+             along the receiver's mro.  Oracle (stream oracle-fullname, routes ref-infer / ref-goto): the project is
+             imported and every such Name must carry __module__ + '.' + __qualname__ of the object the statement it
+             sits on created - the class that HOLDS the definition, not the class it was fetched through.
+             Correspondence: Model/Members (py__mro__ depth-first listing, first filter wins, qualified names of the
+             wrapped MethodValue) via driver op `members`; its Python-side spec defQualname vs CPython
   fullname-collision  coverage of the part of the domain where the module's dotted path and the
              qualname share spellings (gen/c18_layouts.py): the analysed file is f.py, K/f.py, f/f/f.py,
              K/__init__.py ... (regular and namespace parents, depth <= 3) and its functions, classes,
@@ -45,9 +54,10 @@ import common
 from common import short
 from gen import nesting as G
 from gen import c18_layouts as GL
+from gen import c18_members as GM
 
-MODELS = ['Nesting']
-MODEL_TARGETS = ['JediModel.Model.Nesting', 'JediModel.Lemmas.Nesting', 'JediModel.Gen.C18']
+MODELS = ['Nesting', 'Members']
+MODEL_TARGETS = ['JediModel.Model.Nesting', 'JediModel.Model.Members', 'JediModel.Lemmas.Nesting', 'JediModel.Gen.C18']
 LEAN_TARGETS = ['JediModel.Props.C18', 'JediModel.Drivers.C18']
 MANIFEST = dict(
     text='Theorems over Model/Nesting (the flat scope table of Model/Scopes extended with parso leaf and node '
@@ -69,12 +79,23 @@ MANIFEST = dict(
          'over it for both kinds of names (TreeNameDefinition, ValueName), full_name_keeps_repeated_components is the '
          'kernel-checked case of a module K.K whose class, method and nested class are all called K; projects whose '
          'module path collides with the definition names at every depth are generated, imported with CPython and '
-         'compared on four routes (get_names, infer, parent(), get_context).',
+         'compared on four routes (get_names, infer, parent(), get_context). Members reached through references: '
+         'Model/Members transcribes ClassMixin.py__mro__ (depth-first listing; shape read by the translator: '
+         'Gen.C18.mroShape), the first-filter-wins lookup and the qualified names of the value found (a BoundMethod has '
+         'no get_qualified_names of its own - Gen.C18.boundMethodOwnQual, any such method in BoundMethod / FunctionMixin '
+         '/ ValueWrapper breaks the tie - so the wrapped MethodValue answers with the class whose body holds the def); '
+         'member_lookup_in_mro, member_own_body_first, member_full_name_eq_qualname_partial (full_name = module path ++ '
+         '__qualname__ of the object bound in the defining class, for every hierarchy, receiver and name), '
+         'member_full_name_same_definition, member_lookup_class_witness (kernel-checked: naming the class the method was '
+         'looked up through gives mod.U.f for the def whose __qualname__ is S.B.f), member_source_shapes. Tie: '
+         'full_name of Script.infer() on `receiver.attr` vs the model on generated class hierarchies (nested classes, '
+         'multiple inheritance, overriding, diamonds; instances, call results and classes as receivers); oracle: every '
+         'Name infer()/goto() hand out for such a reference vs __module__ + __qualname__ of the imported object.',
     note='Modelled not verified: parso (tokeniser/parser; get_leaf_for_position = first leaf whose end is not before the '
          'position), the printer and table builder of harness/gen/nesting.py (cross-checked against the parso tree on '
          'every program), module string_names taken as a parameter (validated by importing the scratch project). '
          'Imports, star-imports, stubs and compiled names are outside the model.',
-    technique='Lean 4 proof over hand-written model + differential correspondence + ast/execution oracle',
+    technique='Lean 4 proof over hand-written models (Nesting, Members) + differential correspondence + ast/execution oracle',
     design='5.C18')
 
 SCRATCH = os.environ.get('VERIF_SCRATCH_C18', '/tmp/scratch-c18')
@@ -503,6 +524,175 @@ def analyse(item):
         shutil.rmtree(root, ignore_errors=True)
 
 
+# ---------------------------------------------------------------------------- members through references
+
+def name_positions(src, root, rel, dotted):
+    """{(line, column of the name token): 'module.qualname'} of every def/class statement reachable through
+    classes only: the program is imported, the objects are the executed ones"""
+    defs = py_defs(src)
+    modname, objs = import_objects(root, rel, dotted, defs)
+    if modname is None:
+        return None, objs
+    out = {}
+    for i, d in enumerate(defs):
+        if i in objs:
+            col = d['start'][1] + (6 if d['async'] else 0) + (6 if d['kind'] == 'class' else 4)
+            out[(d['start'][0], col)] = objs[i]
+    return modname, out
+
+
+def resolve_refs(script, path, refs):
+    """Script.infer / Script.goto on the attribute of every reference: the Names that sit on a def/class
+    statement of this file"""
+    out = []
+    raised = []
+    for r in refs:
+        res = {}
+        for route in ('infer', 'goto'):
+            try:
+                names = getattr(script, route)(r['line'], r['column'])
+                res[route] = [[n.full_name, n.type, n.line, n.column] for n in names
+                              if n.type in ('function', 'class') and n.module_path is not None
+                              and str(n.module_path) == str(path) and n.line is not None]
+            except Exception as e:
+                cls, site = common.exc_site(e)
+                raised.append((route, r['line'], r['column'], '%s@%s' % (cls, site)))
+                res[route] = None
+        out.append(res)
+    return out, raised
+
+
+def judge_refs(src, layout, refs, resolved, bypos):
+    """the property on every Name handed out for a reference: it describes a def/class statement at module or
+    class level of this file (the statement whose name token it sits on) - its full_name must be the
+    __module__ + '.' + __qualname__ of the object that statement created"""
+    fails, n = [], 0
+    for r, res in zip(refs, resolved):
+        for route in ('infer', 'goto'):
+            for full, typ, line, col in (res[route] or []):
+                want = bypos.get((line, col))
+                if want is None:
+                    continue        # not a definition reachable through classes only
+                n += 1
+                if full != want:
+                    fails.append(('oracle-fullname', 'full_name of the definition a reference resolves to differs from '
+                                  '__module__ + "." + __qualname__',
+                                  {'source': src, 'line': r['line'], 'column': r['column'], 'layout': layout,
+                                   'shape': 'member-through-reference', 'route': 'ref-' + route},
+                                  want, {'full_name': full, 'definition': [typ, line, col], 'route': 'ref-' + route,
+                                         'shape': 'member-through-reference'}))
+    return fails, n
+
+
+def analyse_members(item):
+    """one class hierarchy with references (gen/c18_members.py) on the real code + CPython"""
+    import jedi
+    layout = item.get('layout', 'flat')
+    rel, extra, dotted = resolve_layout(layout)
+    src, table = GM.render(item['hier'])
+    root = os.path.join(SCRATCH, 'mrun-%d' % os.getpid())
+    shutil.rmtree(root, ignore_errors=True)
+    try:
+        for e in extra + [rel]:
+            p = os.path.join(root, e)
+            os.makedirs(os.path.dirname(p), exist_ok=True)
+            with open(p, 'w', encoding='utf-8') as f:
+                f.write(src if e == rel else '')
+        path = os.path.join(root, rel)
+        out = {'src': src, 'table': table, 'layout': layout, 'dotted': dotted, 'tag': item.get('tag', ''),
+               'fails': [], 'judged': 0, 'notes': []}
+        script = jedi.Script(src, path=path, project=jedi.Project(root))
+        out['resolved'], out['raised'] = resolve_refs(script, path, table['refs'])
+        modname, bypos = name_positions(src, root, rel, dotted)
+        if modname is None:
+            out['notes'].append('scratch module failed to import (%s): member oracle skipped for one program'
+                                % bypos.get('error'))
+            return out
+        out['modname'] = modname
+        out['bypos'] = [[l, c, q] for (l, c), q in sorted(bypos.items())]
+        out['fails'], out['judged'] = judge_refs(src, layout, table['refs'], out['resolved'], bypos)
+        # what CPython fetches for the same expressions (coverage: is the member inherited?)
+        ns = {'__name__': modname}
+        exec(compile(src, path, 'exec'), ns)
+        out['runtime'] = []
+        for k, r in enumerate(table['refs']):
+            obj = ns['r%d' % k]
+            obj = getattr(obj, '__func__', obj)
+            out['runtime'].append(modname + '.' + obj.__qualname__)
+        return out
+    finally:
+        shutil.rmtree(root, ignore_errors=True)
+
+
+def member_items(ctx, rng, n_random):
+    items = []
+    lays = ['flat', 'package', 'namespace', 'init']
+    for k, h in enumerate(GM.FIXED):
+        for lay in ('flat', lays[1 + (int(ctx.seed) + k) % 3]):
+            items.append({'hier': h, 'layout': lay, 'tag': 'members-fixed'})
+    for i in range(n_random):
+        h = GM.gen_hierarchy(rng, n_classes=rng.choice([4, 6, 8]), n_queries=rng.choice([6, 10]))
+        items.append({'hier': h, 'layout': lays[i % 4] if i % 3 == 0 else 'flat', 'tag': 'members-random'})
+    return items
+
+
+def absorb_members(ctx, out, reqs, cases):
+    src, table = out['src'], out['table']
+    for n in out['notes']:
+        ctx.notes.append(n)
+    for what, l, c, b in out['raised']:
+        ctx.count('raised', (src, what, l, c), nontrivial=False, bucket=b)
+    paths = ['.'.join(c['path']) for c in table['classes']]
+    for k, r in enumerate(table['refs']):
+        rt = out.get('runtime', [None] * len(table['refs']))[k]
+        own = rt is not None and rt == '%s.%s.%s' % (out['modname'], paths[r['cls']], r['attr'])
+        ctx.count('oracle-fullname-ref', (src, k), nontrivial=rt is not None and not own,
+                  bucket='%s: %s' % (r['form'], 'no runtime object' if rt is None else
+                                     'defined in the receiver\'s own class' if own else 'inherited'),
+                  sample={'source': src, 'line': r['line'], 'column': r['column']})
+    for stream, what, case, exp, obs in out['fails']:
+        ctx.fail(stream, what, case, expected=exp, observed=obs, how=HOW)
+    reqs.append({'op': 'members', 'classes': table['classes'], 'modnames': out['dotted'],
+                 'queries': [[r['cls'], r['attr']] for r in table['refs']]})
+    cases.append(out)
+
+
+def compare_members(ctx, cases, answers):
+    for c, a in zip(cases, answers):
+        if isinstance(a, dict) and 'error' in a:
+            raise common.InfraError('driver: %r' % a)
+        src, table = c['src'], c['table']
+        bypos = {(l, col): q for l, col, q in c.get('bypos', [])}
+        for k, r in enumerate(table['refs']):
+            res = c['resolved'][k]
+            model = a['full'][k]
+            if res['infer'] is None:
+                continue
+            impl = sorted({x[0] for x in res['infer']})
+            ctx.count('member-fullname', (src, k), nontrivial=model is not None,
+                      bucket='%s: %s' % (r['form'], 'not found' if model is None else
+                                         'found in the receiver\'s class' if a['found'][k] == r['cls'] else
+                                         'found in class %d of the mro' % min(a['mro'][r['cls']].index(a['found'][k]), 4)))
+            if impl != ([model] if model is not None else []):
+                ctx.tie_broken('correspondence:member_full_name',
+                               short({'source': src, 'reference': r, 'jedi': impl, 'model': model}, 1500))
+            # python-side spec of the model: __qualname__ of the object the statement jedi names created
+            if model is not None and 'modname' in c:
+                for full, typ, line, col in res['infer']:
+                    want = bypos.get((line, col))
+                    if want is None:
+                        continue
+                    ctx.count('qualname/members', (src, k, line), nontrivial=True)
+                    if c['modname'] + '.' + a['qualname'][k] != want and full == model:
+                        ctx.tie_broken('correspondence:member_qualname',
+                                       short({'source': src, 'reference': r, 'cpython': want,
+                                              'model': a['qualname'][k]}, 1500))
+                rt = c['runtime'][k]
+                ctx.count('member-resolution', (src, k), nontrivial=False,
+                          bucket='jedi names the definition CPython fetches' if rt == c['modname'] + '.' + a['qualname'][k]
+                          else 'another definition (depth-first mro vs C3; not judged here)')
+
+
 class _NameFinder(ast.NodeVisitor):
     """definition names (def/class names, parameters, assignment and comprehension targets) with
     the ast def/class ancestors of the defining construct"""
@@ -755,20 +945,27 @@ def run(ctx):
                 pre.append({'prog': d['prog'], 'layout': d.get('layout', 'flat'), 'tag': d.get('tag', 'witness')})
     items = pre + items
     outs = common.parallel_map('props.c18', 'analyse', items, jobs=14)
+    mitems = member_items(ctx, ctx.subrng('members'), ctx.size(60, 3000))
+    mouts = common.parallel_map('props.c18', 'analyse_members', mitems, jobs=14)
     fixed_probes(ctx)
     t1 = time.time()
     reqs, cases = [], []
     for out in outs:
         absorb(ctx, out, reqs, cases)
+    mreqs, mcases = [], []
+    for out in mouts:
+        absorb_members(ctx, out, mreqs, mcases)
     if ctx.model_ok:
         from concurrent.futures import ThreadPoolExecutor
         k = 8
         chunks = [reqs[i::k] for i in range(k)]
-        with ThreadPoolExecutor(k) as ex:
-            parts = list(ex.map(lambda ch: common.run_driver('C18', ch), chunks))
+        with ThreadPoolExecutor(k + 1) as ex:
+            parts = list(ex.map(lambda ch: common.run_driver('C18', ch), chunks + [mreqs]))
+        manswers = parts.pop()
         answers = [None] * len(reqs)
         for i, part in enumerate(parts):
             answers[i::k] = part
+        compare_members(ctx, mcases, manswers)
         t2 = time.time()
         compare(ctx, cases, answers)
         ctx.notes.append('phases: jedi+oracles %.1fs, lean driver %.1fs, compare %.1fs' % (t1 - t0, t2 - t1, time.time() - t2))
@@ -783,6 +980,9 @@ def run(ctx):
         'from one abstract program by harness/gen/nesting.py; the table is compared with the parso tree on every program',
         'ModuleValue.string_names is a parameter of the model (the dotted path below the project root); the oracle '
         'imports the scratch project with CPython to obtain __module__',
+        'members through references: class statements with plain / async methods and nested classes, bases spelled as '
+        'bare sibling names or dotted paths of finished top-level classes; no self attributes, descriptors, decorators, '
+        'metaclasses or __getattr__ (ClassFilter / InstanceClassFilter order is taken from the mro listing)',
         'fragment: module/def/async def/class/lambda/comprehension scopes, decorators, defaults, annotations, bases, '
         'one-line suites, if/else blocks, bracketed continuation lines, blank and comment lines, trailing blanks; '
         'no imports, no strings spanning lines, no backslash continuations, no tabs',
@@ -804,7 +1004,13 @@ def search(ctx):
         for stream, what, case, exp, obs in out['fails']:
             n += 1
             ctx.fail(stream, what, case, expected=exp, observed=obs, how=HOW)
-    ctx.notes.append('failing-input search: %d programs, %d oracle failures' % (len(items), n))
+    mitems = member_items(ctx, rng, ctx.size(150, 2000))
+    for out in common.parallel_map('props.c18', 'analyse_members', mitems, jobs=14):
+        ctx.count('search/oracle-fullname-ref', (out['src'], 'members'), nontrivial=out['judged'] > 0)
+        for stream, what, case, exp, obs in out['fails']:
+            n += 1
+            ctx.fail(stream, what, case, expected=exp, observed=obs, how=HOW)
+    ctx.notes.append('failing-input search: %d programs, %d oracle failures' % (len(items) + len(mitems), n))
 
 
 N_ = G.N
@@ -939,7 +1145,22 @@ def replay(ctx, payload):
                         chain.append((p.type, p.name, p.line, p.full_name))
                 print('definition %s %s: full_name=%s parent chain=%s' % (n.type, n.name, n.full_name, chain))
         print('expected:', payload.get('expected'), ' observed at record time:', payload.get('observed'))
-        if payload.get('stream') == 'oracle-fullname':
+        if payload.get('stream') == 'oracle-fullname' and str(inp.get('route', '')).startswith('ref-'):
+            # the property, evaluated again on the Names the reference at (line, column) resolves to
+            modname, bypos = name_positions(inp['source'], root, rel, dotted)
+            ref = {'line': inp['line'], 'column': inp['column']}
+            resolved, raised = resolve_refs(script, path, [ref])
+            print('infer/goto at (%d, %d): %r %r' % (inp['line'], inp['column'], resolved[0], raised))
+            fails, n = judge_refs(inp['source'], layout, [ref], resolved, bypos if modname is not None else {})
+            for f in fails:
+                print('CPython: %r   jedi: %r' % (f[3], f[4]))
+            if fails:
+                print('REPRODUCED: full_name of the definition the reference resolves to differs from '
+                      '__module__ + "." + __qualname__ (%d Names judged)' % n)
+                rc = 1
+            else:
+                print('not reproduced (%d Names judged)' % n)
+        elif payload.get('stream') == 'oracle-fullname':
             # the property, evaluated again: CPython's __module__ + '.' + __qualname__ of the object defined at
             # (line, column) vs every full_name jedi hands out for it
             defs = py_defs(inp['source'])
